@@ -38,6 +38,9 @@ pub fn check_drd_header(s: &DrdHeaderSpec, n_blocks: usize, h: &drd::Header) -> 
 fn check_id(kind: &str, id: &drd::DataBlockId, id_type: u8, name: &[u8; 3]) -> Check {
     ensure_eq!(id.data_block_type, id_type, format!("{}:data_block_type@0", kind));
     ensure_eq!(&id.data_name, name, format!("{}:data_name@1", kind));
+    // accessor views of the same two fields
+    ensure_eq!(id.data_block_name(), String::from_utf8_lossy(name).to_string(), format!("{}:data_block_name()", kind));
+    ensure_eq!(id.data_block_type(), id_type as char, format!("{}:data_block_type()", kind));
     Ok(())
 }
 
@@ -99,6 +102,8 @@ pub fn check_moment(label: &str, name: &[u8; 3], s: &MomentSpec, b: &drd::Generi
     ensure_eq!(b.encoded_data.len(), s.expected_len(), format!("moment:gate-buffer-length[{}]", label), "gates {} word size {}", s.gates, s.word_size);
     ensure!(b.encoded_data == s.data, format!("moment:gate-bytes-differ[{}]", label), "{} gate bytes differ from the encoded ones", s.data.len());
     ensure!(b.encoded_values() == &s.data[..], format!("moment:encoded_values-differ[{}]", label), "encoded_values() differs");
+    // accessor view of the block's size: gates x word-bytes (exact in f64 for every u16 x u8)
+    ensure_eq!(h.moment_size().get::<uom::si::information::byte>(), s.gates as f64 * s.word_size as f64 / 8.0, format!("moment:moment_size()[{}]", label), "gates {} word size {}", s.gates, s.word_size);
     Ok(())
 }
 
